@@ -11,6 +11,7 @@ cmd = ["/venv/bin/python", "-m", "pytest", "-q", "-p", "no:cacheprovider", "--ti
        "--continue-on-collection-errors", "-n", nproc, "--junitxml=" + out] + args
 env = dict(os.environ)
 env.pop("SCICO_VERIF", None)
+env["PYTHONHASHSEED"] = "0"   # xdist workers must collect parametrised tests in the same order
 subprocess.run(cmd, cwd="/repo", env=env, stdout=subprocess.DEVNULL, stderr=subprocess.DEVNULL)
 t = ET.parse(out)
 passed, seen = set(), set()
